@@ -37,10 +37,11 @@ def main():
     ap.add_argument("--no-confirm", action="store_true")
     ap.add_argument("--tier", default="quick")
     ap.add_argument("--demo-dir", default="")
+    ap.add_argument("--name", default="")
     a = ap.parse_args()
     wt, sd = a.wt, os.path.join(a.wt, a.seed)
     patch = os.path.join(sd, "patch.diff")
-    name = "%s-%s" % (a.prop, a.seed.strip("_").replace("seeded", "s") or "s")
+    name = a.name or "%s-%s" % (a.prop, a.seed.strip("_").replace("seeded", "s") or "s")
     dest = os.path.join(VERIF, "seeded", name)
     meta_p = os.path.join(dest, "meta.json")
     meta = json.load(open(meta_p)) if os.path.exists(meta_p) else {}
